@@ -126,5 +126,7 @@ def failed_spawn_claims(I, a, st, trace, named):
     claims['no_supervision_event'] = not [e for e in trace if e[0] == 'SUPEVT']
     if a.sup_cell is not None:
         claims['not_linked_to_supervisor'] = (not a.supervisor_of_a(st)) and (not a.child_of_sup(st))
+    if getattr(a, 'obs_cell', None) is not None:
+        claims['not_linked_to_observer'] = not a.child_of_obs(st)
     claims['children_set_closed'] = st.cells[st.ghost[('mutex_inner', 'a_children')]].variant == 'None'
     return claims
